@@ -78,6 +78,11 @@ func genC08(rc *RunCtx) (*C1, bool) {
 	}
 	full := sc.Reply
 	sc.Full = full
+	sc.DeadlinePort = sc.Kind == KSerial && !sc.Flusher && t.Choose(2) == 1
+	switch sc.Fault {
+	case FIOErr, FWriteErr, FShortWrite, FWriteDeadlineErr:
+		sc.IOErr = genIOErr(t)
+	}
 	n := len(full)
 	// read timeout knob: keep stalls cheap most of the time
 	sc.ReadTimeout = []time.Duration{20 * time.Millisecond, 5 * time.Millisecond, 100 * time.Millisecond, 2 * time.Second, 500 * time.Millisecond}[t.Pick(4, 3, 2, 1, 1)]
@@ -158,6 +163,7 @@ func genC08(rc *RunCtx) (*C1, bool) {
 		}
 		sc.Reply = buf
 		sc.Chunks = nil
+		sc.Endless = t.Choose(3) == 0 // the flood never ends: the client has to stop reading by itself
 		off := 0
 		if keep > 0 && t.Choose(3) == 0 {
 			// the first k bytes of the valid reply arrive on their own (k may cover a whole header), then the flood
